@@ -32,6 +32,10 @@ type diskOp struct {
 	Vote    string
 	Chunks  [][]byte
 	Conf    []byte
+	// ReadAt: for snap/snapdiscard, SnapshotFile() is also called (and judged) while the file is
+	// still open for writing, after ReadAt-1 of its writes (0 = never): a snapshot being written
+	// by one party (state machine, incoming transfer) while another one is sent to a follower.
+	ReadAt int
 }
 
 func (o diskOp) String() string {
@@ -53,7 +57,11 @@ func (o diskOp) String() string {
 		for _, c := range o.Chunks {
 			n += len(c)
 		}
-		return fmt.Sprintf("%s(label %d/%d, %d writes, %dB)", o.Kind, o.Index, o.Term, len(o.Chunks), n)
+		rd := ""
+		if o.ReadAt > 0 {
+			rd = fmt.Sprintf(", read after write %d", o.ReadAt-1)
+		}
+		return fmt.Sprintf("%s(label %d/%d, %d writes, %dB%s)", o.Kind, o.Index, o.Term, len(o.Chunks), n, rd)
 	}
 	return o.Kind
 }
@@ -718,6 +726,9 @@ func genStoreProgram(rng *simrt.Rand, length int, thorough bool) []diskOp {
 				}
 				o.Chunks = append(o.Chunks, b)
 			}
+			if rng.Chance(0.3) {
+				o.ReadAt = 1 + rng.Intn(len(o.Chunks)+1)
+			}
 		case x < 90:
 			o.Kind = "readsnap"
 		default:
@@ -816,11 +827,34 @@ func execStoreOp(s **stores, o diskOp, m *storeModel) error {
 			return err
 		}
 		var all []byte
-		for _, c := range o.Chunks {
+		readDuring := func(k int) error {
+			if o.ReadAt != k+1 {
+				return nil
+			}
+			got, err := readSnapshot((*s).sn)
+			if err != nil {
+				return fmt.Errorf("while label %d is being written: %w", o.Index, err)
+			}
+			var want *snapRec
+			if len(m.snaps) > 0 {
+				want = &m.snaps[len(m.snaps)-1]
+			}
+			if !got.same(want) {
+				return fmt.Errorf("while label %d is being written (%d of %d writes done), SnapshotFile returned %s, expected %s", o.Index, k, len(o.Chunks), got, want)
+			}
+			return nil
+		}
+		for k, c := range o.Chunks {
+			if err := readDuring(k); err != nil {
+				return err
+			}
 			if _, err := f.Write(c); err != nil {
 				return err
 			}
 			all = append(all, c...)
+		}
+		if err := readDuring(len(o.Chunks)); err != nil {
+			return err
 		}
 		if o.Kind == "snapdiscard" {
 			return f.Discard()
